@@ -33,8 +33,8 @@ def lattice(rng, lo, hi):
 def correspond(ctx):
     rng, tier = ctx["rng"], ctx["tier"]
     npr = rng.nprng()
-    n_circ = 120 if tier == "quick" else 1500
-    n_sub = 60 if tier == "quick" else 600
+    n_circ = 120 if tier == "quick" else 6000
+    n_sub = 60 if tier == "quick" else 2400
     cases, meta = [], []
     for k in range(n_circ):
         n = rng.randint(1, 24)
